@@ -435,6 +435,9 @@ var racExps = []int32{0, 0, 0, -1, 1, -2, 2, -3, 3, -5, 5, -7, 7, -8, -9, 10, -1
 func init() {
 	// beyond the power-of-ten table (more than 128 digits): all nines, a power of ten, a value just above a rounding
 	// tie, a long fraction - seeds Y05, Z01 and Z19 need them to show on the real code
+	// 20-digit values around 2^64 (precision 19), a 60-digit coefficient just above a power of ten (digit-count estimates)
+	racCoeffs = append(racCoeffs, "12345678901234567890", "10000000000000000000", "1002"+strings.Repeat("0", 56), "1001"+strings.Repeat("0", 53))
+	racExps = append(racExps, 59, 56, 3)
 	// multiples of 10^19 above 2^64 (a two-word value whose low decimal half is zero: seed I14)
 	racCoeffs = append(racCoeffs, "50000000000000000000", "100000000000000000000", "10000000000000000000000000000000000000")
 	racCoeffs = append(racCoeffs, strings.Repeat("9", 129), "1"+strings.Repeat("0", 129), "123451"+strings.Repeat("0", 129),
@@ -485,7 +488,7 @@ func genDecimal(rng__ *rand.Rand) *Decimal {
 }
 func genContext(rng__ *rand.Rand) *Context {
 	c := new(Context)
-	c.Precision = []uint32{1, 2, 3, 3, 4, 5, 7, 9, 16, 0}[rng__.Intn(10)]
+	c.Precision = []uint32{1, 2, 3, 3, 4, 5, 7, 9, 16, 0, 19, 39}[rng__.Intn(12)]
 	c.MinExponent = []int32{0, -1, -2, -5, -5, -10, -20, -100000}[rng__.Intn(8)]
 	c.MaxExponent = []int32{5, 10, 20, 100, 100000}[rng__.Intn(5)]
 	if int64(c.MaxExponent) < int64(c.Precision) {
